@@ -3,7 +3,7 @@
 set -e
 cd "$(dirname "$0")"
 export PYTHONPATH=/repo PYTHONHASHSEED=0 PYTHONDONTWRITEBYTECODE=1 PYTHONWARNINGS=ignore
-for t in tools/gen_tables.py tools/gen_static.py tools/gen_state.py; do
+for t in tools/gen_tables.py tools/gen_static.py tools/gen_state.py tools/gen_factory.py; do
   if [ -f "$t" ]; then /venv/bin/python "$t"; fi
 done
 cd coq
